@@ -664,13 +664,18 @@ def propagate(fn, max_size=400):
             if isinstance(st, ast.Try):
                 for h in st.handlers:
                     h.body = block(h.body, env)
+            # a local that merely names a field of self (bf = self._brems_func) is the same object: writing bf.x writes self._brems_func.x,
+            # so such an alias is replaced even though it is written through
+            def alias(v):
+                d = dotted(v)
+                return bool(d) and d.startswith('self.') and isinstance(v, ast.Attribute)
             if isinstance(st, ast.Assign) and len(st.targets) == 1 and isinstance(st.targets[0], ast.Name):
                 n = st.targets[0].id
-                if counts.get(n) == 1 and n not in params and n not in mutated and ok_value(st.value):
+                if counts.get(n) == 1 and n not in params and (n not in mutated or alias(st.value)) and ok_value(st.value):
                     env[n] = st.value
             elif isinstance(st, ast.AnnAssign) and isinstance(st.target, ast.Name) and st.value is not None:
                 n = st.target.id
-                if counts.get(n) == 1 and n not in params and n not in mutated and ok_value(st.value):
+                if counts.get(n) == 1 and n not in params and (n not in mutated or alias(st.value)) and ok_value(st.value):
                     env[n] = st.value
             out.append(st)
         return out
